@@ -67,7 +67,7 @@ inline RunResult run_parties(size_t n, size_t t_rbc, const std::vector<Role> &ro
 		if (pid[me] == 0) {
 			signal(SIGPIPE, SIG_IGN);
 			int devnull = open("/dev/null", O_WRONLY);
-			if (!getenv("C15_DEBUG")) { dup2(devnull, 2); }          // the library reports time-outs on std::cerr
+			dup2(res[me][1], 2);                                     // the library reports time-outs on std::cerr: forwarded to the parent
 			dup2(devnull, 1);
 			reseed_lib(seedbase * 1000003ULL + 7919ULL * (me + 1));
 			std::vector<int> uin, uout, bin, bout; std::vector<std::string> ukey, bkey;
